@@ -48,6 +48,16 @@ inductive SizeOp where
   | simulate      -- self.simulate(method=method)
   deriving Repr, DecidableEq, Inhabited
 
+/-- The statements of `GHEManager.find_design` after the "everything is set" guard. -/
+inductive MgrOp where
+  | startTimer    -- start_time = time()
+  | search        -- self._search = self._design.find_design()
+  | computeG      -- self._search.ghe.compute_g_functions()
+  | stopTimer     -- self._search_time = time() - start_time
+  | size          -- self._search.ghe.size(method=TimestepType.HYBRID)
+  | ret0          -- return 0
+  deriving Repr, DecidableEq, Inhabited
+
 /-- The statements of the nested `local_objective(h)`. -/
 inductive ObjOp where
   | setH          -- self.bhe.b.H = h
